@@ -827,6 +827,84 @@ pub fn run(cx: &mut Cx) {
         }
     }
 
+    // (b4) several huge values in one entry, with ordinary lines between
+    // them: values of 4 KiB, 64 KiB and more at two or more places of the same
+    // entry (a printer that batches its output, writes big lines directly or
+    // switches strategy by size has state that lives from one line to the next)
+    if cx.tier != Tier::Mini {
+        let mut r = cx.shared_stream("huge-value-patterns");
+        let limits: &[usize] = cx.pick_tier(&[][..], &[4096, 65_536][..], &[4096, 65_536, 65_537, 131_072][..], &[4096, 32_768, 65_536, 65_537, 131_072, 1 << 20][..]);
+        let per = cx.pick_tier(0usize, 4, 10, 24);
+        let mut case = 0u64;
+        for &limit in limits {
+            for k in 0..per {
+                let mut m = gs::model(&mut r, false, 1, 3);
+                let mut huge = 0usize;
+                let mk = |r: &mut crate::rng::Rng| {
+                    let (w, lead, len) = ([0usize, 1, 2, 3][r.below(4)], r.below(4), limit + r.below(3) - 1);
+                    gs::aligned_text(r, w, lead, len)
+                };
+                let svars: Vec<usize> = (0..NVARS).filter(|&v| VARS[v].kind != Kind::I).collect();
+                match k % 3 {
+                    0 => {
+                        // one list: small, huge, small, huge
+                        let lists: Vec<usize> = svars.iter().cloned().filter(|&v| VARS[v].kind != Kind::S).collect();
+                        let var = *r.pick(&lists);
+                        let small = gs::list_for(&mut r, var);
+                        let mut l = vec![];
+                        for i in 0..r.range(3, 6) {
+                            if i % 2 == 1 {
+                                l.push(mk(&mut r));
+                                huge += 1;
+                            } else {
+                                l.push(small[i % small.len()].clone());
+                            }
+                        }
+                        m.set(var, Val::A(l));
+                    }
+                    _ => {
+                        // every variable on its own: huge with probability 1/3
+                        for &var in &svars {
+                            match VARS[var].kind {
+                                Kind::S => {
+                                    if r.chance(1, 3) {
+                                        m.set(var, Val::S(mk(&mut r)));
+                                        huge += 1;
+                                    }
+                                }
+                                _ => {
+                                    if r.chance(1, 2) {
+                                        let mut l = gs::list_for(&mut r, var);
+                                        for x in l.iter_mut() {
+                                            if r.chance(1, 3) {
+                                                *x = mk(&mut r);
+                                                huge += 1;
+                                            }
+                                        }
+                                        m.set(var, Val::A(l));
+                                    }
+                                }
+                            }
+                        }
+                    }
+                }
+                let hists = histories(&mut r, &m);
+                case += 1;
+                if !cx.mine(case) || huge < 2 {
+                    continue;
+                }
+                cx.check(
+                    || format!("{huge} values of about {limit} bytes in one entry: variables {:?}", (0..NVARS).filter(|&v| m.get(v).is_some()).map(|v| VARS[v].name).collect::<Vec<_>>()),
+                    |ev| {
+                        ev.count("workload/huge_value_patterns");
+                        ev.max("max/value_bytes", limit as u64);
+                        check_model(ev, &m, &hists)
+                    },
+                );
+            }
+        }
+    }
+
     // (d) histories that continue a parsed entry: parse the canonical text of
     // a complete entry B, then go on with set_*/push_* calls (and observation
     // calls in between); the end state is B overlaid with the calls.
